@@ -4,7 +4,7 @@
     <seq> OK | <seq> SKIP <reason> | <seq> DIFF <what> … | <seq> BAD <parse error>
 -/
 import SugarModel.Driver.Transcript
-import SugarModel.Spec.RefColl
+import SugarModel.Spec.RefZSet
 import SugarModel.Known
 import SugarModel.Generated.CommandTable
 import SugarModel.Driver.AclLines
@@ -74,11 +74,15 @@ def showRes : Res → String
   | .okPerm h g => s!"okPerm({toHex h},{g.map toHex})"
   | .okPick h k d g => s!"okPick({toHex h},{k},{d},{g.map toHex})"
 
+/-- the bulk strings a reply names, in order (one level of nesting: sorted-set replies are arrays of arrays) -/
 def hintOf : Observed → List Bytes
   | .ok bs => match parseReply bs with
-    | some (.arr xs) => xs.filterMap fun v => match v with
-      | .bulk s => some s
-      | _ => none
+    | some (.arr xs) => xs.flatMap fun v => match v with
+      | .bulk s => [s]
+      | .arr ys => ys.filterMap fun w => match w with
+        | .bulk s => some s
+        | _ => none
+      | _ => []
     | some (.bulk s) => [s]
     | _ => []
   | _ => []
@@ -215,7 +219,9 @@ def shapeOf (t : Transition) : String :=
 /-- Go map iteration order is resolved by trying the permutations of up to four distinct operands -/
 def verdict (t : Transition) : String :=
   let n := ((t.cmd.drop 1).eraseDups.length).min 4
-  let tries := [1, 1, 2, 6, 24].getD n 1
+  let isZ := (toLower (t.cmd.headD [])).head? == some 122
+  -- sorted-set commands: the iteration order of one map (tie arrangements) instead of operand permutations
+  let tries := if isZ then zTries t.pre t.ctx.db else [1, 1, 2, 6, 24].getD n 1
   let first := verdictWith t 0
   if !first.startsWith "DIFF" then first else
   match (List.range tries).drop 1 |>.findSome? fun o =>
